@@ -238,6 +238,9 @@ structure SpecSt where
   dscope : List (List (Name × Nat))    -- declaration indices, innermost first
   next : Nat
   out : List DStmt
+  /-- per open block (innermost first) the shapes of the blocks already closed inside it, with the
+  names each declared directly (C18, value tables) -/
+  kids : List (List Shape) := [[]]
   deriving Inhabited
 
 def dlookup (n : Name) : List (List (Name × Nat)) → Option Nat
@@ -249,8 +252,19 @@ def dlookup (n : Name) : List (List (Name × Nat)) → Option Nat
 
 def SpecSt.emit (s : SpecSt) (d : DStmt) : SpecSt := { s with out := s.out ++ [d] }
 def SpecSt.emits (s : SpecSt) (ds : List DStmt) : SpecSt := { s with out := s.out ++ ds }
-def SpecSt.push (s : SpecSt) : SpecSt := { s with tscope := [] :: s.tscope, dscope := [] :: s.dscope }
-def SpecSt.pop (s : SpecSt) : SpecSt := { s with tscope := s.tscope.tail, dscope := s.dscope.tail }
+def SpecSt.push (s : SpecSt) : SpecSt :=
+  { s with tscope := [] :: s.tscope, dscope := [] :: s.dscope, kids := [] :: s.kids }
+
+/-- the names declared directly in the innermost open block, in source order -/
+def SpecSt.topNames (s : SpecSt) : List Name := (s.dscope.headD []).reverse.map (·.1)
+
+/-- closing a block records its shape in the enclosing one -/
+def closeKids (names : List Name) : List (List Shape) → List (List Shape)
+  | t :: p :: r => (p ++ [.node names t]) :: r
+  | k => k.tail
+
+def SpecSt.pop (s : SpecSt) : SpecSt :=
+  { s with tscope := s.tscope.tail, dscope := s.dscope.tail, kids := closeKids s.topNames s.kids }
 
 def SpecSt.declare (s : SpecSt) (n : Name) (t : Ty) (m : Bool) : SpecSt × Nat :=
   let d := s.next
@@ -392,7 +406,7 @@ def specParams : List (Name × ATy) → SpecSt → SpecSt
     let q := s.declare n t.toTy false
     specParams rest (q.1.emit (.param q.2))
 
-def SpecSt.init : SpecSt := { tscope := [[]], dscope := [[]], next := 0, out := [] }
+def SpecSt.init : SpecSt := { tscope := [[]], dscope := [[]], next := 0, out := [], kids := [[]] }
 
 /-- what the source function computes, in evaluation order -/
 def specStmts (ref : Bool) (g : RGlobals) (f : FnDecl) : List DStmt :=
